@@ -20,9 +20,9 @@ import (
 	"time"
 
 	"github.com/yandex/pandora/core"
-	"github.com/yandex/pandora/core/coreutil"
 	"github.com/yandex/pandora/core/aggregator/netsample"
 	"github.com/yandex/pandora/core/config"
+	"github.com/yandex/pandora/core/coreutil"
 	"github.com/yandex/pandora/core/engine"
 	"github.com/yandex/pandora/core/register"
 	"go.uber.org/zap"
@@ -302,6 +302,11 @@ type rawPeer struct {
 	seen   []seenReq
 	Script func(n int, r *seenReq) rawAction
 	ln     *simnet.Listener
+	// TLS, when set, makes the peer speak TLS; HangTLS(k) tells whether the k-th accepted connection never answers
+	// the ClientHello (the TCP connection stays open and silent)
+	TLS     *tls.Config
+	HangTLS func(k int) bool
+	conns   int
 }
 
 func (p *rawPeer) Seen() []seenReq {
@@ -330,6 +335,21 @@ func startRawPeer(n *simnet.Net, addr string, script func(n int, r *seenReq) raw
 
 func (p *rawPeer) serve(c net.Conn) {
 	defer c.Close()
+	if p.TLS != nil {
+		p.mu.Lock()
+		k := p.conns
+		p.conns++
+		p.mu.Unlock()
+		if p.HangTLS != nil && p.HangTLS(k) {
+			buf := make([]byte, 1024)
+			for {
+				if _, err := c.Read(buf); err != nil {
+					return
+				}
+			}
+		}
+		c = tls.Server(c, p.TLS)
+	}
 	br := bufio.NewReader(c)
 	for {
 		req, err := http.ReadRequest(br)
